@@ -264,11 +264,22 @@ def content_bindings(ctx, wexe):
         ops.append(["c", "GetSelectedOutputCount", 0])
         ops.append(["c", "GetSelectedOutputRowCount", 0])
         ops.append(["f", "GetSelectedOutputRowCountF", 0])
+        for n in (1, 5):
+            ops += [["c", "SetCurrentSelectedOutputUserNumber", 0, n], ["c", "GetSelectedOutputFileName", 0], ["m", "GetSelectedOutputFileName", 0], ["f", "GetSelectedOutputFileNameF", 0, 40]]
         with vlib.scratch("c13b") as d:
             res, rc, err = wrap.run_script(wexe, ops, d)
             if rc != 0 or any(r is None for r in res):
                 ctx.violation("content:driver", "driver failed: %s" % err[-200:], {"kind": "ops", "ops": ops})
                 return
+            # documented defaults embed the user number and the instance id: selected_<n>.<id>.out (no -file, no SetSelectedOutputFileName)
+            for k, n in enumerate((1, 5)):
+                base = i0 + 10 + 4 * k
+                want = "selected_%d.0.out" % n
+                got = (res[base + 1]["r"], res[base + 2]["r"], res[base + 3]["r"]["buf"][:40].rstrip(" "))
+                if any(g != want for g in got):
+                    ctx.violation("content:default-sel-file-name", "after a run that defines SELECTED_OUTPUT %d (no -file) its default file name is %r (C, C++, F), documented default %r" % (n, got, want),
+                                  {"kind": "input", "input_text": text, "observed": got, "expected": want})
+                    return
             counts = {fam: res[i0 + k]["r"] for k, fam in enumerate(LINE_FAMS)}
             ncomp, nsel = res[i0 + 6]["r"], res[i0 + 7]["r"]
             rows, rowsF = res[i0 + 8]["r"], res[i0 + 9]["r"]
